@@ -225,17 +225,97 @@ def c20_fail_closed(op, impl, model):
             f"(it must report an error, not a wrapped value): {op}")
 
 
+def c05_conditions(op, impl, model):
+    """risk.postliq <k> <pre health> <portfolio> / risk.preliq <k> <portfolio>: the liquidation conditions themselves"""
+    if op.startswith("risk.postliq"):
+        if impl.startswith("ok") and model.startswith("err 6072"):
+            pre = op.split()[2]
+            return (f"C05 the post-liquidation condition ACCEPTS a liquidation after which maintenance health ({impl.split()[1]} bits) is not strictly "
+                    f"better than before ({pre} bits): {op[:400]}")
+        if impl.startswith("ok") and model.startswith("err 6071"):
+            return f"C05 the post-liquidation condition accepts an account that is POSITIVE at maintenance level afterwards: {op[:400]}"
+        if impl.startswith("ok") and model.startswith("err"):
+            return f"C05 the post-liquidation condition accepts where the exact evaluation refuses ({model}): {op[:400]}"
+    if op.startswith("risk.preliq"):
+        if impl.startswith("ok") and model.startswith("err 6068"):
+            return f"C05 the pre-liquidation condition holds for an account that is healthy at maintenance level: {op[:400]}"
+        if impl.startswith("ok") and model.startswith("err"):
+            return f"C05 the pre-liquidation condition holds where the exact evaluation refuses ({model}): {op[:400]}"
+    return None
+
+
+def bracket_conditions(pid):
+    """risk.start / risk.endliq / risk.enddelev: the real start / end instructions accept what the exact evaluation refuses"""
+    def f(op, impl, model):
+        kind = op.split(" ", 1)[0]
+        if kind not in ("risk.start", "risk.endliq", "risk.enddelev") or not impl.startswith("ok") or not model.startswith("err"):
+            return None
+        code = model.split()[1]
+        if kind == "risk.start" and code == "6068" and pid == "C10":
+            return f"C10 start_liquidation ACCEPTED an account that is healthy at maintenance level by exact evaluation of its portfolio (a third party takes control of a healthy account): {op[:400]}"
+        if kind == "risk.endliq" and pid == "C10":
+            why = {"6068": "the account is POSITIVE at maintenance level at the end", "6072": "maintenance health is WORSE than at the start",
+                   "6090": "the value seized exceeds the value repaid by more than the maximum premium"}.get(code)
+            if why:
+                return f"C10 end_liquidation ACCEPTED although {why} (exact evaluation: {model}): {op[:400]}"
+        if kind == "risk.enddelev" and code == "6072":
+            return f"{pid} end_deleverage ACCEPTED although maintenance health is worse than at the start of the bracket: {op[:400]}"
+        return None
+    return f
+
+
+def c10_health(op, impl, model):
+    """risk.pulse: the engine's liquidation verdict (what start_liquidation tests) vs the exact evaluation"""
+    if not op.startswith("risk.pulse"):
+        return None
+    i, m = _nums(impl), _nums(model)
+    if not i or not m or len(i) < 12 or len(m) < 12:
+        return None
+    if i[7] == 0 and m[7] == 6068:
+        return (f"C10 the engine finds an account liquidatable (maintenance assets {i[2]} vs liabilities {i[3]}) that is healthy at maintenance level by exact evaluation "
+                f"(assets {m[2]} > liabilities {m[3]}): a third party could take control of a healthy account: {op[:400]}")
+    if i[7] == 6068 and m[7] == 0 and i[2] > i[3] and m[2] <= m[3]:
+        return None
+    return None
+
+
+def c11_health(op, impl, model):
+    """the initial-margin check that end_flashloan runs, against the exact evaluation"""
+    if not op.startswith("risk.pulse"):
+        return None
+    i, m = _nums(impl), _nums(model)
+    if not i or not m or len(i) < 12 or len(m) < 12:
+        return None
+    if i[6] == 0 and (m[6] == 6009 or m[0] < m[1]):
+        return (f"C11 the initial-margin check that ends a flash loan PASSES a portfolio whose exactly computed initial health is negative "
+                f"(engine: assets {i[0]} >= liabilities {i[1]}; exact: assets {m[0]} < liabilities {m[1]}): {op[:400]}")
+    if i[6] == 0 and m[6] == 6029:
+        return f"C11 the check that ends a flash loan passes a portfolio in which an isolated-tier debt is not the only debt: {op[:400]}"
+    return None
+
+
+def c02_closebank(op, impl, model):
+    if op.startswith("ix.closebank") and impl.strip() == "ok" and model.startswith("err"):
+        a = op.split()
+        return (f"C02 lending_pool_close_bank CLOSED a bank whose books are not empty within the dust tolerance (deposit shares {a[3]}, debt shares {a[4]}, "
+                f"unclaimed emissions {a[14]}, position counters {a[15]}/{a[16]}, flags {a[10]}; 0.0001 unit = 28147497671 bits): accounts may still hold more than dust in it: {op}")
+    return None
+
+
 WITNESS = {
     "C04": [c04_health, emode_dupes("C04")],
     "C13": [emode_dupes("C13"), accepted_invalid_curve("C13")],
     "C18": [accepted_invalid_curve("C18")],
-    "C12": [accepted_invalid_curve("C12")],
-    "C05": [c05_health, c05_liq, value_scaling("C05")],
+    "C12": [accepted_invalid_curve("C12"), bracket_conditions("C12")],
+    "C05": [c05_health, c05_liq, value_scaling("C05"), c05_conditions],
     "C07": [c07_health, c07_soc],
     "C09": [c09_health],
     "C16": [c16_foc],
     "C03": [ixf_tokens("C03")],
     "C17": [c17_limits],
+    "C02": [c02_closebank],
+    "C11": [c11_health],
+    "C10": [bracket_conditions("C10"), c10_health],
     "C20": [c20_fail_closed],
     "C01": [ixf_tokens("C01")],
 }
